@@ -15,7 +15,8 @@ EXPL = ("Decided structurally (every schedule at once, because uniqueness then f
         "max(used)+1 (0 when empty): recycled ids are < last_id and unused, fresh ids >= last_id; (N5) the build obtains the "
         "used set from a scan of exactly its own tree prefix and hands the generator by shared reference to the parallel "
         "workers; (R-SYNC) the only hand-written unsafe Send/Sync impls are the two frozen pointer tables, never written "
-        "through; (R-PAR) the closure run by rayon captures only shared references. NOT decided: rayon/std atomics (trusted).")
+        "through; (R-PAR) the closure run by rayon captures only shared references. NOT decided: rayon/std atomics (trusted)."
+        " (N6) before any id is produced the ticket counter is compared with u32::MAX and DatabaseFull is returned instead of wrapping the 32-bit counters; (N5, strengthened) the used-id function has no shortcut that skips the scan and the set reaches the generator without a mutable borrow in between. The C01 / C06 premise rule sets are re-evaluated.")
 
 ATOMIC_RMW_OK = ('::fetch_add',)
 ATOMIC_ANY = ('::load', '::store', '::swap', '::compare_exchange', '::compare_exchange_weak', '::fetch_add', '::fetch_sub',
